@@ -6,6 +6,7 @@ import (
 	"errors"
 	"fmt"
 	"io"
+	"math"
 	"os"
 	"path/filepath"
 	"runtime/debug"
@@ -367,6 +368,13 @@ func updateConfigFile() {
 		value := slip.UserPkg.JustGet(key)
 		p := *slip.DefaultPrinter()
 		p.Readably = true
+		// The values are read back when the REPL starts so the print base
+		// and the length, level, and lines limits must not apply.
+		p.Base = 10
+		p.Radix = false
+		p.Length = math.MaxInt
+		p.Level = math.MaxInt
+		p.Lines = math.MaxInt
 		b = fmt.Appendf(b, "(setq %s ", key)
 		if list, ok := value.(slip.List); ok && 0 < len(list) {
 			b = append(b, '\'')
